@@ -26,6 +26,10 @@ pub enum Call {
     RegInfix(&'static str, i32, bool, &'static str),
     RegPrefix(&'static str, &'static str),
     RegPostfix(&'static str, &'static str),
+    /// describe() of the parsed text (C18's concurrent part)
+    Describe(&'static str),
+    SetBinaryDescriptor(&'static str, &'static str),
+    SetReferenceDescriptor(&'static str, &'static str),
 }
 
 pub struct Workload {
@@ -34,6 +38,9 @@ pub struct Workload {
     /// calls made by the main thread before the threads start (warm-up / pre-registration)
     pub pre: Vec<Call>,
     pub threads: Vec<Vec<Call>>,
+    /// calls made by the main thread after all threads have finished (their results are part
+    /// of the observation: whatever the interleaving, the final state must be a sequential one)
+    pub post: Vec<Call>,
     /// registries (0 prefix, 1 infix, 2 postfix, 3 functions) written after initialisation
     pub write_set: Vec<u32>,
 }
@@ -46,6 +53,7 @@ pub fn workloads() -> Vec<Workload> {
             about: "two threads make the process's first engine call at once",
             pre: vec![],
             threads: vec![vec![Exec("1 + 2 * 3")], vec![Exec("min(4, 5)")]],
+            post: vec![],
             write_set: vec![],
         },
         Workload {
@@ -55,6 +63,7 @@ pub fn workloads() -> Vec<Workload> {
             // (the second evaluation runs after a first-use initialisation that was still in
             // flight during the first one has certainly finished)
             threads: vec![vec![Exec("max(1, 2) + 1")], vec![RegFn("min", "X"), Exec("min(1, 2)"), Exec("min(1, 2)")]],
+            post: vec![],
             write_set: vec![3],
         },
         Workload {
@@ -62,6 +71,7 @@ pub fn workloads() -> Vec<Workload> {
             about: "first evaluation, registration of a new infix word operator, and an evaluation using that word, all at once",
             pre: vec![],
             threads: vec![vec![Exec("1 + 2 * 3")], vec![RegInfix("hi", 111, true, "H")], vec![Exec("1 hi 2")]],
+            post: vec![],
             write_set: vec![1],
         },
         Workload {
@@ -69,6 +79,7 @@ pub fn workloads() -> Vec<Workload> {
             about: "after warm-up: two registrations of the same function name against two evaluations of it",
             pre: vec![Exec("1 + 1")],
             threads: vec![vec![RegFn("f", "h1")], vec![RegFn("f", "h2")], vec![Exec("f()"), Exec("f()")]],
+            post: vec![],
             write_set: vec![3],
         },
         Workload {
@@ -76,6 +87,7 @@ pub fn workloads() -> Vec<Workload> {
             about: "after warm-up: registration of a prefix and a postfix operator against parses of text using them",
             pre: vec![Exec("1 + 1")],
             threads: vec![vec![RegPrefix("npre", "P"), RegPostfix("npo", "Q")], vec![Exec("npre 1 npo"), Exec("npre 1 npo")]],
+            post: vec![],
             write_set: vec![0, 2],
         },
         Workload {
@@ -83,6 +95,7 @@ pub fn workloads() -> Vec<Workload> {
             about: "after warm-up: registration of one prefix operator against two evaluations using it (a single registration is atomic for a single-occurrence expression)",
             pre: vec![Exec("1 + 1")],
             threads: vec![vec![RegPrefix("npre", "P")], vec![Exec("npre 1"), Exec("npre 1")]],
+            post: vec![],
             write_set: vec![0],
         },
         Workload {
@@ -90,6 +103,7 @@ pub fn workloads() -> Vec<Workload> {
             about: "after warm-up: registration of one postfix operator against two evaluations using it",
             pre: vec![Exec("1 + 1")],
             threads: vec![vec![RegPostfix("npo", "Q")], vec![Exec("1 npo"), Exec("1 npo")]],
+            post: vec![],
             write_set: vec![2],
         },
         Workload {
@@ -97,6 +111,7 @@ pub fn workloads() -> Vec<Workload> {
             about: "three first calls at once",
             pre: vec![],
             threads: vec![vec![Exec("1 + 2")], vec![Exec("max(1, 2)")], vec![Parse("a ? - b : c ++")]],
+            post: vec![],
             write_set: vec![],
         },
         Workload {
@@ -104,6 +119,7 @@ pub fn workloads() -> Vec<Workload> {
             about: "(C16) two evaluations of assigning programs with equal variable names on separate contexts",
             pre: vec![],
             threads: vec![vec![Exec("x = 1 ; x += 1 ; x"), Exec("x")], vec![Exec("x = 10 ; x *= 2 ; x"), Exec("x")]],
+            post: vec![],
             write_set: vec![],
         },
         Workload {
@@ -111,6 +127,7 @@ pub fn workloads() -> Vec<Workload> {
             about: "after warm-up and a first registration: re-registration of an infix operator against an evaluation using it (must see the old or the new operator, never neither)",
             pre: vec![Exec("1 + 1"), RegInfix("pick", 105, true, "old")],
             threads: vec![vec![RegInfix("pick", 105, true, "new")], vec![Exec("10 pick 20"), Exec("10 pick 20")]],
+            post: vec![],
             write_set: vec![1],
         },
         Workload {
@@ -118,23 +135,61 @@ pub fn workloads() -> Vec<Workload> {
             about: "after warm-up: an evaluation tokenises a word while another thread registers it as an infix operator and then uses it itself (whatever the first thread saw, the registrar's own later evaluation must see the operator)",
             pre: vec![Exec("1 + 1")],
             threads: vec![vec![Exec("10 pk 20")], vec![RegInfix("pk", 105, true, "K"), Exec("10 pk 20"), Exec("10 pk 20")]],
+            post: vec![],
             write_set: vec![1],
         },
         Workload {
             name: "W11-two-registrations-after-three",
-            about: "after warm-up and three earlier function registrations: two threads each register a function and call both (no registration may be lost, whatever the table size)",
+            about: "after warm-up and three earlier function registrations: two threads each register a function; afterwards both must be callable (no registration may be lost, whatever the table size)",
             pre: vec![Exec("1 + 1"), RegFn("fa", "a"), RegFn("fb", "b"), RegFn("fc", "c")],
-            threads: vec![vec![RegFn("fd", "d"), Exec("[fd(), fa()]")], vec![RegFn("fe", "e"), Exec("[fe(), fb()]")], vec![Exec("fc()")]],
+            threads: vec![vec![RegFn("fd", "d")], vec![RegFn("fe", "e")]],
+            post: vec![Exec("[fa(), fd(), fe()]")],
             write_set: vec![3],
+        },
+        Workload {
+            name: "W12-two-infix-registrations",
+            about: "after warm-up: two threads register different infix operators (one re-registers a built-in); afterwards both registrations must be in effect",
+            pre: vec![Exec("1 + 1")],
+            threads: vec![vec![RegInfix("qa", 105, true, "A")], vec![RegInfix("-", 110, true, "M")]],
+            post: vec![Exec("1 qa 2"), Exec("3 - 1")],
+            write_set: vec![1],
         },
         Workload {
             name: "W9-first-use-register-x2",
             about: "the first engine calls are two registrations (one of a built-in operator) and an evaluation",
             pre: vec![],
             threads: vec![vec![RegInfix("+", 110, true, "plus2")], vec![RegFn("sum", "S")], vec![Exec("sum(1, 2) + 3")]],
+            post: vec![],
             write_set: vec![1, 3],
         },
     ]
+}
+
+/// workloads that belong to other properties but use this explorer
+pub fn extra_workloads() -> Vec<Workload> {
+    use Call::*;
+    vec![
+        Workload {
+            name: "D1-describe-vs-binary-descriptor",
+            about: "(C18) describe() of a binary node while another thread registers the descriptor for that operator and then describes twice itself",
+            pre: vec![Exec("1 + 1")],
+            threads: vec![vec![Describe("a + b")], vec![SetBinaryDescriptor("+", "B"), Describe("a + b")]],
+            post: vec![Describe("a + b")],
+            write_set: vec![],
+        },
+        Workload {
+            name: "D2-describe-vs-reference-descriptor",
+            about: "(C18) describe() of references while another thread registers a reference descriptor",
+            pre: vec![Exec("1 + 1")],
+            threads: vec![vec![Describe("f(x , y)")], vec![SetReferenceDescriptor("x", "R"), Describe("x - y")]],
+            post: vec![Describe("[x , y]")],
+            write_set: vec![],
+        },
+    ]
+}
+
+pub fn find_workload(name: &str) -> Option<Workload> {
+    workloads().into_iter().chain(extra_workloads()).find(|w| w.name == name)
 }
 
 fn tagged(name: &'static str, tag: &'static str) -> impl Fn(Vec<Value>) -> Value + Send + Sync + Clone {
@@ -163,6 +218,17 @@ pub fn run_call(c: &Call, ctx: &mut Context) -> String {
             expression_engine::register_postfix_op(n, Arc::new(move |a| Ok(f(vec![a]))));
             Ok("registered".into())
         }
+        Call::Describe(text) => parse_expression(text).map(|t| format!("Ok({:?})", t.describe())).map_err(|e| format!("Err({:?})", e)),
+        Call::SetBinaryDescriptor(op, tag) => {
+            let tag = tag.to_string();
+            expression_engine::verif_hooks::DescriptorManager::new().set_binary_descriptor(op.to_string(), Arc::new(move |o, l, r| format!("<{}:{}|{}|{}>", tag, o, l, r)));
+            Ok("registered".into())
+        }
+        Call::SetReferenceDescriptor(name, tag) => {
+            let tag = tag.to_string();
+            expression_engine::verif_hooks::DescriptorManager::new().set_reference_descriptor(name.to_string(), Arc::new(move |n| format!("<{}:{}>", tag, n)));
+            Ok("registered".into())
+        }
         Call::RegInfix(n, p, l, t) => {
             let f = tagged(n, t);
             expression_engine::register_infix_op(n, *p, InfixOpType::CALC, if *l { InfixOpAssociativity::LEFT } else { InfixOpAssociativity::RIGHT }, Arc::new(move |a, b| Ok(f(vec![a, b]))));
@@ -182,11 +248,11 @@ pub fn run_call(c: &Call, ctx: &mut Context) -> String {
 /// `vh child sched <workload> <reduce 0|1> <choices|->`  /  `vh child seq <workload> <order>`
 pub fn child_main(args: &[String]) -> i32 {
     let mode = args[0].as_str();
-    let ws = workloads();
-    let w = match ws.iter().find(|w| w.name == args[1]) {
+    let w = match find_workload(&args[1]) {
         Some(w) => w,
         None => return 2,
     };
+    let w = &w;
     if mode == "seq" {
         // one thread, calls in the given order of thread ids
         let order: Vec<usize> = args[2].split(',').filter(|s| !s.is_empty()).map(|s| s.parse().unwrap()).collect();
@@ -202,6 +268,7 @@ pub fn child_main(args: &[String]) -> i32 {
             next[t] += 1;
             obs[t].push(run_call(c, &mut ctxs[t]));
         }
+        obs.push(w.post.iter().map(|c| run_call(c, &mut main_ctx)).collect());
         println!("CHILD-RESULT {}", json!({ "obs": obs }));
         return 0;
     }
@@ -255,7 +322,14 @@ pub fn child_main(args: &[String]) -> i32 {
     };
     let finished_ok = done && sched.wait_done();
     let mut rep = sched.report();
-    rep["obs"] = json!(*obs.lock().unwrap());
+    let mut all_obs = obs.lock().unwrap().clone();
+    if finished_ok {
+        // the main thread is untracked: these calls run without scheduling
+        all_obs.push(w.post.iter().map(|c| run_call(c, &mut main_ctx)).collect());
+    } else {
+        all_obs.push(vec!["(not run)".to_string()]);
+    }
+    rep["obs"] = json!(all_obs);
     rep["stuck"] = json!(!done);
     rep["completed"] = json!(finished_ok);
     // registries outside the write set must hold exactly the built-in names (+ pre-registrations)
@@ -468,6 +542,45 @@ fn explore(w: &Workload, bound: usize, reduce: bool, jobs: usize, budget: Durati
     (agg.into_inner().unwrap(), capped)
 }
 
+/// sequential reference + exploration of one workload (used by C13 and by C18's schedule stage)
+pub fn check_workload(w: &Workload, bound: usize, budget: Duration, out: &mut WorkerOut) {
+    let jobs = std::env::var("VERIF_JOBS").ok().and_then(|s| s.parse().ok()).unwrap_or_else(|| std::thread::available_parallelism().map(|n| n.get()).unwrap_or(8).clamp(2, 32));
+    let mut allowed: BTreeSet<String> = BTreeSet::new();
+    for order in sequential_orders(w) {
+        let o = order.iter().map(|t| t.to_string()).collect::<Vec<_>>().join(",");
+        match run_child(&["seq".into(), w.name.into(), o.clone()], Duration::from_secs(30)) {
+            Ok(j) => {
+                allowed.insert(j["obs"].to_string());
+            }
+            Err(e) => out.fail("machinery:seq-child-failed", format!("{}|order={}", w.name, o), e),
+        }
+    }
+    let (ex, capped) = explore(w, bound, true, jobs, budget, &allowed, out);
+    out.evals += ex.schedules;
+    out.count("validated", ex.schedules);
+    out.count("states", ex.states.len() as u64);
+    out.count("transitions", ex.points);
+    out.count("noncandidate_points", ex.noncandidates);
+    out.count(&format!("schedules:{}", w.name), ex.schedules);
+    out.count(&format!("max_points:{}", w.name), ex.max_points);
+    out.count(&format!("sequential_outcomes:{}", w.name), allowed.len() as u64);
+    out.count(&format!("observed_outcomes:{}", w.name), ex.outcomes.len() as u64);
+    if capped {
+        out.count("time_capped_workloads", 1);
+        if !out.fails.keys().any(|k| !k.starts_with("machinery:")) {
+            out.fail("machinery:exploration-capped", format!("{}|bound={}", w.name, bound), format!("time budget hit after {} schedules; the bound was not completed", ex.schedules));
+        }
+    }
+    for o in ex.outcomes.keys() {
+        out.nontrivial.insert(hash64(&format!("{}{}", w.name, o)));
+        out.outcomes.insert(format!("{}:{}", w.name, hash64(o) % 1000));
+    }
+    if allowed.len() >= 2 && ex.outcomes.len() < 2 && !capped {
+        out.fail("machinery:vacuous-workload", format!("{}|bound={}", w.name, bound), format!("sequential orders give {} outcomes but {} schedules produced only one", allowed.len(), ex.schedules));
+    }
+    out.sample(format!("{}: {} schedules, bound {}, up to {} decisions each, {} distinct result vectors (sequential reference: {})", w.name, ex.schedules, bound, ex.max_points, ex.outcomes.len(), allowed.len()));
+}
+
 impl Prop for C13 {
     fn id(&self) -> &'static str {
         "C13"
@@ -502,40 +615,15 @@ impl Prop for C13 {
         let w = &ws[stage];
         out.idx = Some(0);
         let jobs = std::env::var("VERIF_JOBS").ok().and_then(|s| s.parse().ok()).unwrap_or_else(|| std::thread::available_parallelism().map(|n| n.get()).unwrap_or(8).clamp(2, 32));
-        // sequential reference: every order of the calls, each in a fresh process
+        let bound = bound_for(w, tier);
+        let budget = Duration::from_secs(tier.pick(45, 1500));
+        check_workload(w, bound, budget, out);
         let mut allowed: BTreeSet<String> = BTreeSet::new();
         for order in sequential_orders(w) {
             let o = order.iter().map(|t| t.to_string()).collect::<Vec<_>>().join(",");
-            match run_child(&["seq".into(), w.name.into(), o.clone()], Duration::from_secs(30)) {
-                Ok(j) => {
-                    allowed.insert(j["obs"].to_string());
-                }
-                Err(e) => out.fail("machinery:seq-child-failed", format!("{}|order={}", w.name, o), e),
+            if let Ok(j) = run_child(&["seq".into(), w.name.into(), o], Duration::from_secs(30)) {
+                allowed.insert(j["obs"].to_string());
             }
-        }
-        let bound = bound_for(w, tier);
-        let budget = Duration::from_secs(tier.pick(45, 1500));
-        let (ex, capped) = explore(w, bound, true, jobs, budget, &allowed, out);
-        out.evals += ex.schedules;
-        out.count("validated", ex.schedules);
-        out.count("states", ex.states.len() as u64);
-        out.count("transitions", ex.points);
-        out.count("noncandidate_points", ex.noncandidates);
-        out.count(&format!("schedules:{}", w.name), ex.schedules);
-        out.count(&format!("max_points:{}", w.name), ex.max_points);
-        out.count(&format!("sequential_outcomes:{}", w.name), allowed.len() as u64);
-        out.count(&format!("observed_outcomes:{}", w.name), ex.outcomes.len() as u64);
-        if capped {
-            out.count("time_capped_workloads", 1);
-            out.fail("machinery:exploration-capped", format!("{}|bound={}", w.name, bound), format!("time budget hit after {} schedules; the bound was not completed", ex.schedules));
-        }
-        for o in ex.outcomes.keys() {
-            out.nontrivial.insert(hash64(&format!("{}{}", w.name, o)));
-            out.outcomes.insert(format!("{}:{}", w.name, hash64(o) % 1000));
-        }
-        // vacuity: where the sequential reference has several outcomes, the exploration must see more than one
-        if allowed.len() >= 2 && ex.outcomes.len() < 2 && !capped {
-            out.fail("machinery:vacuous-workload", format!("{}|bound={}", w.name, bound), format!("sequential orders give {} outcomes but {} schedules produced only one", allowed.len(), ex.schedules));
         }
         // the reduction must not change the verdict or the outcome set (W1, bound 1, quick cross-check)
         if stage == 0 {
@@ -550,7 +638,6 @@ impl Prop for C13 {
                 out.fail("machinery:reduction-changes-outcomes", format!("{}|bound=1", w.name), format!("unreduced outcomes {:?} vs reduced {:?}; failures {:?}", a, b, tmp.fails.keys().collect::<Vec<_>>()));
             }
         }
-        out.sample(format!("{}: {} schedules, bound {}, up to {} decisions each, {} distinct result vectors (sequential reference: {})", w.name, ex.schedules, bound, ex.max_points, ex.outcomes.len(), allowed.len()));
     }
     fn case_text(&self, _tier: Tier, stage: usize, _i: u64) -> String {
         workloads()[stage].name.to_string()
